@@ -332,39 +332,43 @@ def call_loops(target):
         def M(L):
             return L['resp'].mon
 
-        # for#0: independent request loop
-        reg.loops[(key, 'for#0')] = LoopSpec(
-            inv=lambda L: And(M(L).visited_req == L['_i_for0'], Not(M(L).pending_req), Not(M(L).raised), Not(L['resp'].complete),
+        # Loop contracts are registered under the loop HEADER (not the ordinal), so that reordering the loops or swapping the two branches of
+        # `if self._independent_middleware` does not detach a contract from its loop; obligation ids keep the historical labels for#0..for#3.
+        # independent request loop
+        reg.loops[(key, 'for process_request in mw_req_stack')] = LoopSpec(
+            name='for#0',
+            inv=lambda L: And(M(L).visited_req == L['_i_loop'], Not(M(L).pending_req), Not(M(L).raised), Not(L['resp'].complete),
                               M(L).phase == 'REQ', Not(M(L).route_attempted)),
             havoc=lambda ctx, L: _havoc_mon(ctx, M(L), 'req'))
 
-        # for#1: dependent request loop (builds the dependent response stack)
+        # dependent request loop (builds the dependent response stack)
         def inv1(L):
             m = M(L)
             dep = L['dependent_mw_resp_stack']
             seq = dep.seq if isinstance(dep, SeqList) else z3.Empty(z3.SeqSort(z3.IntSort()))
-            return And(m.visited_req == L['_i_for1'], Not(m.pending_req), Not(m.raised), m.phase == 'REQ', Not(m.route_attempted),
-                       mk_bool(seq == RR(_i(L['_i_for1']))))
+            return And(m.visited_req == L['_i_loop'], Not(m.pending_req), Not(m.raised), m.phase == 'REQ', Not(m.route_attempted),
+                       mk_bool(seq == RR(_i(L['_i_loop']))))
 
         def havoc1(ctx, L):
             _havoc_mon(ctx, M(L), 'req')
             L['resp'].complete = ctx.fresh_bool('hv_complete')
-            ctx.assume(mk_bool(rr_step(L['_i_for1'])))  # defining equation of the spec function at this index
+            ctx.assume(mk_bool(rr_step(L['_i_loop'])))  # defining equation of the spec function at this index
 
-        reg.loops[(key, 'for#1')] = LoopSpec(
-            inv=inv1, havoc=havoc1,
+        reg.loops[(key, 'for (process_request, process_response) in mw_req_stack')] = LoopSpec(
+            name='for#1', inv=inv1, havoc=havoc1,
             lists={'dependent_mw_resp_stack': ('ref', lambda k: Callee(CUR['v'], CUR['mon'], 'resp', k, CUR['asgi']), lambda c: c.k)})
 
-        # for#2: resource loop
-        reg.loops[(key, 'for#2')] = LoopSpec(
-            inv=lambda L: And(M(L).visited_rsrc == L['_i_for2'], Not(M(L).pending_rsrc), Not(M(L).raised), Not(L['resp'].complete),
+        # resource loop
+        reg.loops[(key, 'for process_resource in mw_rsrc_stack')] = LoopSpec(
+            name='for#2',
+            inv=lambda L: And(M(L).visited_rsrc == L['_i_loop'], Not(M(L).pending_rsrc), Not(M(L).raised), Not(L['resp'].complete),
                               M(L).routed, M(L).resource_truthy, M(L).responder_calls == 0),
             havoc=lambda ctx, L: _havoc_mon(ctx, M(L), 'rsrc'))
 
-        # for#3: response loop
+        # response loop
         def inv3(L):
             m = M(L)
-            return And(m.visited_resp == L['_i_for3'], Iff(L['req_succeeded'], Not(m.raised)))
+            return And(m.visited_resp == L['_i_loop'], Iff(L['req_succeeded'], Not(m.raised)))
 
         def havoc3(ctx, L):
             m = M(L)
@@ -372,7 +376,7 @@ def call_loops(target):
             L['resp'].complete = ctx.fresh_bool('hv_complete')
             m.raised = Or(m.raised, ctx.fresh_bool('hv_raised'))  # failures only accumulate
 
-        reg.loops[(key, 'for#3')] = LoopSpec(inv=inv3, havoc=havoc3)
+        reg.loops[(key, 'for process_response in mw_resp_stack or dependent_mw_resp_stack')] = LoopSpec(name='for#3', inv=inv3, havoc=havoc3)
         reg.inline.update(['falcon.asgi.app:_validate_asgi_scope'])
 
     return setup
